@@ -23,7 +23,8 @@ RULE = ('Single-update cases on a real broker with a stub data handler whose quo
         '-(price*qty + commission); mirrored commission identical. Non-trivial = bid != ask, rate > 0 and '
         'price*qty at least 0.01 away from a whole number and from .5.'
         " Round-4/5 reach: the broker's fee_model attribute replaced before the fills; a third of the cases pre-load positions the orders add to, reduce, close or cross through (cash compared as a delta); a third route the orders through ExecutionHandler + MarketOrderExecutionAlgorithm at the update time."
-        " Round-10 reach: update and submission times written in Berlin / Azores time (wall clock inside exchange hours in both zones); accounts in USD, GBP or EUR.")
+        " Round-10 reach: update and submission times written in Berlin / Azores time (wall clock inside exchange hours in both zones); accounts in USD, GBP or EUR."
+        " Round-11 reach: update times carrying 1 or 789 nanoseconds.")
 ASSUMPTIONS = [
     'the stub data handler stands in for any DataHandler (the shipped one returns bid == ask)',
     'update instants at least one minute inside exchange hours (boundaries are C04\'s subject)',
@@ -57,6 +58,9 @@ def _run(case, mirror, fee_obj=None):
     q = load()
     t0 = cal.ts6(case['t_submit'])
     t1 = cal.ts6(case['t_update'])
+    if case.get('ns'):
+        # clocks with nanosecond resolution: the update time carries a few hundred nanoseconds
+        t1 = t1 + pd.Timedelta(nanoseconds=case['ns'])
     if case.get('tz'):
         # the same instants written in another time zone (one in which the wall clock is inside exchange hours too)
         t0, t1 = t0.tz_convert(case['tz']), t1.tz_convert(case['tz'])
@@ -233,6 +237,8 @@ def run_case(case):
     cls.append('fee_zero_model' if case['fee'] is None else ('fee_default' if case['fee'] == 'default' else (
         'fee_rate_positive' if rate > 0 else 'fee_rate_zero')))
     cls.append('orders_%d' % len(case['orders']))
+    if case.get('ns'):
+        cls.append('update_time_with_nanoseconds')
     if case.get('tz'):
         cls.append('update_time_in_another_zone')
     if case.get('currency'):
@@ -312,7 +318,7 @@ def cases(draw):
         zones.append('Europe/Berlin')            # UTC+1 on these dates
     if (h, mi) >= (15, 31):
         zones.append('Atlantic/Azores')          # UTC-1 on these dates
-    return {'tz': draw(st.sampled_from(zones)), 'currency': draw(st.sampled_from([None, None, 'USD', 'GBP', 'EUR'])),
+    return {'tz': draw(st.sampled_from(zones)), 'ns': draw(st.sampled_from([0, 0, 0, 789, 1])), 'currency': draw(st.sampled_from([None, None, 'USD', 'GBP', 'EUR'])),
             'second_round': draw(st.sampled_from([False, False, True])), 'retune': draw(st.sampled_from([0, 0, 1, 2, 3])), 'prior': prior, 'via_exec': draw(st.sampled_from([False, False, True])), 'swap_fee': swap, 't_submit': [t0.year, t0.month, t0.day, t0.hour, t0.minute, t0.second],
             't_update': [t1.year, t1.month, t1.day, t1.hour, t1.minute, t1.second],
             'orders': orders, 'fee': fee}
